@@ -18,6 +18,10 @@ def mk(kind, seed):
     rng = random.Random("%s/%d" % (kind, seed))
     if kind == "dfa":
         return U.random_dfa(rng, rng.randint(1, 4), rng.choice(["a", "ab"]), prefix=rng.choice(["s", "q"]))
+    if kind in ("pairL", "pairR"):
+        from . import c20
+        D1, D2 = c20.build_pair({"kind": "rndpairs", "seed": seed - (17 if kind == "pairR" else 0)})
+        return D1 if kind == "pairL" else D2
     if kind == "dfa_ab":
         return U.random_dfa(rng, rng.randint(1, 3), "ab", prefix="s")
     if kind == "dfa_ab2":
@@ -100,6 +104,9 @@ def ops_table():
         "dfa_symmetric_difference": (["dfa_ab", "dfa_ab2"], lambda A, B, s: da.dfa_symmetric_difference(A, B), "fa"),
         "dfa_isomorphic": (["dfa_ab", "dfa_ab2"], lambda A, B, s: da.dfa_isomorphic(A, B), V),
         "dfa_isomorphic1": (["dfa_ab", "dfa_ab2"], lambda A, B, s: da.dfa_isomorphic1(A, B), V),
+        "dfa_isomorphic/pairs": (["pairL", "pairR"], lambda A, B, s: da.dfa_isomorphic(A, B) if A.Sigma == B.Sigma else None, V),
+        "dfa_isomorphic1/pairs": (["pairL", "pairR"], lambda A, B, s: da.dfa_isomorphic1(A, B) if A.Sigma == B.Sigma else None, V),
+        "dfa_isomorphic1/pairs2": (["pairL", "pairR"], lambda A, B, s: da.dfa_isomorphic1(B, A) if A.Sigma == B.Sigma else None, V),
         "print_dfa": (["dfa"], U1(da.print_dfa), "text"),
         "dfa_to_regexp": (["dfa"], U1(ra.dfa_to_regexp), "re"),
         "nfa_accepts_word": (["nfa"], W(na.nfa_accepts_word), V),
@@ -203,14 +210,18 @@ def run_case(case, table, logging):
 
 def case_list(seed, n):
     names = sorted(ops_table().keys())
+    # operations whose VALUE could depend on a set-iteration order get more cases
+    heavy = [x for x in names if x.startswith("dfa_isomorphic") or x in ("dfa_to_regexp", "nfa_to_dfa", "dfa_hopfcroft",
+                                                                          "dfa_minimize", "cfg_eliminate_unit_rules")]
+    names = names + heavy * 4 + [x for x in names if "/pairs" in x] * 25
     rng = random.Random(seed)
     return [{"id": i, "opname": names[i % len(names)], "seed": seed * 1000003 + rng.randrange(10 ** 6)} for i in range(n)]
 
 
 def tasks(tier, seed):
     q = tier == "quick"
-    n = 600 if q else 6000
-    hseeds = [0, 1, seed % 1000 + 2] if q else list(range(12))
+    n = 1500 if q else 9000
+    hseeds = [0, 1, seed % 1000 + 2, 3, 4] if q else list(range(12))
     ts = []
     for i, h in enumerate(hseeds):
         ts.append({"kind": "cases", "seed": seed, "n": n, "order": i, "logging": i % 2 == 1, "hashseed": h})
